@@ -574,6 +574,34 @@ func Build(s Spec, mons ...vnet.Monitor) *Built {
 		sort.Slice(at, func(i, j int) bool { return at[i] < at[j] })
 		c.TxSchedule = at
 	}
+	switch s.Profile {
+	case "silent-f", "partition", "amnesia", "async-then-sync":
+		// a run that has made no progress for 3000 block times after the last fault event is stalled for good
+		// (the largest progress bound judged is 16*2^7 block times): stop it instead of burning the step cap
+		T := int64(max(cfg.TPB, cfg.MaxTPB))
+		prev := hooks.Done
+		hooks.Done = func(c *vnet.Cluster) bool {
+			if prev != nil {
+				if prev(c) {
+					return true
+				}
+			} else if c.AllDone() {
+				return true
+			}
+			if len(c.Cut) > 0 || c.Clock-c.LastFault() <= 3000*T {
+				return false
+			}
+			last := c.LastFault()
+			for _, n := range c.Nodes {
+				for _, a := range n.Accepted {
+					if a.Clock > last {
+						last = a.Clock
+					}
+				}
+			}
+			return c.Clock-last > 3000*T
+		}
+	}
 	return &Built{C: c, Hooks: hooks, Spec: s}
 }
 
